@@ -10,6 +10,9 @@ import common
 import qgen
 
 
+ALL_FIELDS = ('rows', 'err', 'pulled', 'writes', 'afterRefusal', 'finished', 'warnA', 'warnB', 'otherWarnings')
+
+
 def make_line(case, rnd=None, lang_texts=None):
     texts = lang_texts or {'py': qgen.render_query(case['q'], 'py', rnd, case.get('header_a'), case.get('header_b')),
                            'js': qgen.render_query(case['q'], 'js', rnd, case.get('header_a'), case.get('header_b'))}
@@ -30,7 +33,7 @@ def parse_out(o):
         return {'unparsable': o[:300]}
 
 
-def observable(d, fields=('rows', 'err', 'pulled', 'writes', 'afterRefusal', 'finished')):
+def observable(d, fields=ALL_FIELDS):
     if not isinstance(d, dict):
         return d
     if d.get('err') is not None:
@@ -114,7 +117,7 @@ def shrink(case, impl, fields, rounds=40):
     return cur
 
 
-def run_cases(res, prop, cases, impl='py', rnd=None, fields=('rows', 'err', 'pulled', 'writes', 'afterRefusal', 'finished'), max_report=6, texts=None):
+def run_cases(res, prop, cases, impl='py', rnd=None, fields=ALL_FIELDS, max_report=6, texts=None):
     """cases: list of dicts {q, A, B?, header_a?, header_b?}. Returns number of disagreements."""
     lines = [make_line(c, rnd, None if texts is None else texts[i]) for i, c in enumerate(cases)]
     r = compare(lines, impl, fields)
@@ -143,7 +146,7 @@ def run_cases(res, prop, cases, impl='py', rnd=None, fields=('rows', 'err', 'pul
     return nbad
 
 
-def replay(res, path, fields=('rows', 'err', 'pulled', 'writes', 'afterRefusal', 'finished')):
+def replay(res, path, fields=ALL_FIELDS):
     v = json.loads(open(path).read())
     if 'line' not in v:
         print('replay: %s names a proof obligation, not an input: %s' % (path, v.get('no_longer_checks')))
